@@ -4,7 +4,7 @@ import re
 
 from . import gen_kzg, gen_pc, gen_c16, gen_c13, gen_c08, gen_c09
 from .gen_common import R_BLS381
-from .oracles import pc_honest, pc_mutations, pc_refusals, pc_hiding, pc_domain
+from .oracles import pc_honest, pc_mutations, pc_refusals, pc_hiding, pc_domain, pc_serialization
 
 
 def _names(*prefixes):
@@ -357,5 +357,12 @@ PROPS = {
         "flows": [(gen_c09.gen, "c09", 90, 900), (gen_pc.gen, "c17domain", 30, 300)],
         "oracles": [oracle_c09, pc_honest, pc_domain],
         "title": "Setup and trim",
+    },
+    "C12": {
+        "props_file": "props/C12.v",
+        "flows": [(gen_pc.gen, "c12", 64, 640)],
+        "oracles": [pc_honest, pc_serialization],
+        "filter": _names("rt", "sz", "len", "tr"),
+        "title": "Canonical serialization",
     },
 }
